@@ -9,7 +9,7 @@ PROPS['C20'] = dict(
     level_note='Schedules are sampled: the harness owns team size, sharing pattern and start skew, the OS owns the interleaving. TSan detects unsynchronised conflicting accesses by happens-before, so a race does not have to manifest, '
                'but absence of reports is not a proof. steady_clock readings are used only to classify whether threads overlapped.',
     replay_any=True,   # a race is schedule dependent: a failure that reproduces in at least one of three replays counts
-    units=[dict(name='c20', src='c20_threads.cpp', flags=['-fsanitize=thread'], libs=['-lrapidcheck', '-lpthread'], env={'TSAN_OPTIONS': 'halt_on_error=0:report_signal_unsafe=0:exitcode=0'}, crash_handler='crash')],
+    units=[dict(name='c20', src='c20_threads.cpp', flags=['-fsanitize=thread', '-g1'], libs=['-lrapidcheck', '-lpthread'], env={'TSAN_OPTIONS': 'halt_on_error=0:report_signal_unsafe=0:exitcode=0'}, crash_handler='crash')],
     runs=dict(
         quick=[dict(unit='c20', cases=500, workers=4, set=dict(tmax=8))],
         thorough=[dict(unit='c20', cases=4000, workers='all', set=dict(tmax=16))],
